@@ -433,10 +433,12 @@ def _oracle(case, obs, part, book, lat):
                         F("C15.we_error_on_full_write", "full_write",
                           "write with ALL %d bytes enabled (we=%s, data=%s, presented %d cycle(s)) moved we_errors by %d; every lane's enables are all ones so no granularity error may be reported"
                           % (nb_from, hx(be), hx(data), len(cyc), errs), rep)
-                elif bcl == "partial_lane":
+                else:
+                    # "Writes that do not enable all bytes of an ECC word are reported": every lane (ECC word) whose enables are not all
+                    # ones counts, whether it is enabled partially or not at all
                     if errs < 1:
-                        F("C15.we_error_missing", "partial_lane",
-                          "write we=%s touches an ECC word partially but we_errors did not move while it was presented (%d cycles)" % (hx(be), len(cyc)), rep)
+                        F("C15.we_error_missing", bcl,
+                          "write we=%s (%s) does not enable all bytes of every ECC word but we_errors did not move while it was presented (%d cycles)" % (hx(be), bcl, len(cyc)), rep)
                 need = 0
                 for ln in range(bc):
                     if (be >> (ln * lb)) & lfull:
@@ -1076,8 +1078,11 @@ class Recorder:
                 raise HarnessError("finding %s does not reproduce when its case is evaluated again" % clause)
             if chosen is case:
                 def fails(trial, clause=clause, part=part):
-                    o2 = evaluate(trial, "fast")
-                    f4, _ = oracle(trial, o2, part, book=secded.CodeBook(trial["cfg"][0]))
+                    try:
+                        o2 = evaluate(trial, "fast")
+                        f4, _ = oracle(trial, o2, part, book=secded.CodeBook(trial["cfg"][0]))
+                    except Exception:      # a candidate that cannot be evaluated is not a reduction
+                        return False
                     return any(x["clause"] == clause for x in quiet_filter(self.col, f4))
                 chosen = ddmin_case(case, fails)
             obs = evaluate(chosen, "migen")
